@@ -350,11 +350,74 @@ def m_deep_package(n, r):
                                                '    return pkg_d{n}.var_root{n} + 1\n'}
 
 
+def m_self_mentioning_module(n, r):
+    # a module whose text mentions its own name (docstring), imported from the top level and
+    # from a module of a sub-package
+    return ['import mod_reg{n}',
+            'from pkg_w{n} import mod_worker{n}',
+            'print(mod_reg{n}.fn_regadd{n}(1), mod_worker{n}.fn_work{n}(), mod_reg{n}.fn_regadd{n}(2))'], \
+        {'mod_reg{n}.py': '"""mod_reg{n}: keeps a list."""\nvar_items{n} = [3]\ndef fn_regadd{n}(par_i{n}):\n'
+                          '    var_items{n}.append(par_i{n})\n    return len(var_items{n})\n',
+         'pkg_w{n}/__init__.py': '',
+         'pkg_w{n}/mod_worker{n}.py': 'import mod_reg{n}\ndef fn_work{n}():\n    return mod_reg{n}.fn_regadd{n}(5) * 10\n'}
+
+
+def u_async_methods(n, r):
+    return ['import asyncio',
+            'def fn_tag{n}(par_f{n}):',
+            '    async def fn_inner{n}(*par_a{n}):',
+            "        return ('tag', await par_f{n}(*par_a{n}))",
+            '    return fn_inner{n}',
+            'class cls_As{n}:',
+            '    def __init__(self):',
+            '        self.attr_base{n} = 5',
+            '    @fn_tag{n}',
+            '    async def meth_am{n}(self, par_k{n}):',
+            '        var_w{n} = self.attr_base{n} + par_k{n}',
+            '        return var_w{n} * 2',
+            '    @classmethod',
+            '    async def meth_ac{n}(cls, par_c{n}):',
+            '        var_z{n} = par_c{n} + 3',
+            '        return var_z{n} * 3',
+            '    async def meth_plain{n}(self, par_q{n}):',
+            '        var_p{n} = par_q{n} * 4',
+            '        return var_p{n} + self.attr_base{n}',
+            'async def fn_amain{n}():',
+            '    var_i{n} = cls_As{n}()',
+            '    print(await var_i{n}.meth_am{n}(2), await cls_As{n}.meth_ac{n}(1), await var_i{n}.meth_plain{n}(3))',
+            'asyncio.run(fn_amain{n}())'], {}
+
+
+def u_decorated_methods(n, r):
+    return ['def fn_dm{n}(par_g{n}):',
+            '    def fn_dw{n}(*par_b{n}):',
+            '        return par_g{n}(*par_b{n}) + 1000',
+            '    return fn_dw{n}',
+            'class cls_D{n}:',
+            '    attr_k{n} = 2',
+            '    @fn_dm{n}',
+            '    def meth_d{n}(self, par_e{n}):',
+            '        var_h{n} = par_e{n} * 5',
+            '        return var_h{n} - self.attr_k{n}',
+            '    @fn_dm{n}',
+            '    @fn_dm{n}',
+            '    def meth_dd{n}(self, par_j{n}):',
+            '        var_y{n} = par_j{n} + self.attr_k{n}',
+            '        return var_y{n} * 2',
+            '    @classmethod',
+            '    @fn_dm{n}',
+            '    def meth_cd{n}(cls, par_m{n}):',
+            '        var_x{n} = par_m{n} - cls.attr_k{n}',
+            '        return var_x{n} * 3',
+            'print(cls_D{n}().meth_d{n}(1), cls_D{n}().meth_dd{n}(2), cls_D{n}.meth_cd{n}(7))'], {}
+
+
 SINGLE = [u_function, u_class, u_inherit, u_closure_nonlocal, u_closure, u_comp_filter, u_comp, u_loop,
           u_try, u_lambda, u_generator, u_decorator, u_property, u_global, u_with, u_starargs, u_dicts,
-          u_walrus_while, u_method_chain, u_rebind_if, u_rebind_try, u_rebind_while, u_arith, u_arith, u_accumulate, u_accumulate]
+          u_walrus_while, u_method_chain, u_rebind_if, u_rebind_try, u_rebind_while, u_arith, u_arith, u_accumulate, u_accumulate,
+          u_async_methods, u_decorated_methods]
 MULTI = [m_import_module, m_from_import, m_alias, m_reexport, m_keyword_across, m_submodule,
-         m_global_across, m_deep_package]
+         m_global_across, m_deep_package, m_self_mentioning_module]
 
 
 def generate(rnd, multi=True, nunits=None, in_function=False):
